@@ -9,3 +9,5 @@ open GrVerif.Props.C03
 #print axioms reversal_keeps_stream
 #print axioms reversal_touches_links_only
 #print axioms indices_are_a_permutation
+#print axioms glyph_ids_are_real_glyphs
+#print axioms every_opcode_keeps_glyph_ids
